@@ -14,6 +14,9 @@ For ALL inputs (any entry lists, any section tables, any number of objects) of t
   target section is retained and non-empty.
 * `cie_pointer_ok`    : each output FDE's rewritten CIE pointer designates an output CIE that is the
   copy of the CIE its input pointer designated.
+* `goSections_eq_concat` / `writeObjSections_eq` : an object with SEVERAL `.eh_frame` input sections
+  (one writer pass per section, fresh input position and CIE map) yields the same output as one pass
+  over the concatenated entry list, so all theorems above apply to such objects as well.
 * `layoutCount_eq`    : the layout-side count (per loaded non-empty section, frames attached) equals
   the writer-side count (FDEs passing the keep test) — the reason `take_eh_frame_hdr_entry` never
   returns `None` and no zero entry is left.
@@ -523,5 +526,231 @@ def exObj : Obj :=
 
 example : (writeAll [exObj, exObj] 0x500000).map (fun r => (r.hdr, r.count)) =
     some ([(4198400, 5242904), (4196368, 5242964), (4198400, 5243028), (4196368, 5243088)], 4) := by decide
+
+/-! ## Objects with several `.eh_frame` input sections
+
+`goSections` (Model) is the writer as the code has it: one pass per section. The tie sends the
+concatenated entry list (`concatSections`); `goSections_eq_concat` shows both give the same output
+bytes (addresses, rewritten CIE pointers, pc), the same table entries, output size and allocation. -/
+
+/-- what an observer of the output sees of a writer state -/
+def Out.bytes : Out → Bool × Nat × Nat × Nat
+  | .cie a t => (false, a, t, 0)
+  | .fde a c p _ => (true, a, c, p)
+
+def St.view (st : St) : Nat × Nat × List (Bool × Nat × Nat × Nat) × List (Nat × Nat) :=
+  (st.outPos, st.cap, st.outs.map Out.bytes, st.hdr)
+
+def shiftMap (I P : Nat) (m : List (Nat × Nat)) : List (Nat × Nat) := m.map fun kv => (I + kv.1, P + kv.2)
+
+/-- the concatenated pass `sc` simulates the per-section pass `ss` of a section that starts at input
+offset `I` / output offset `P`; `old` = CIEs of earlier sections -/
+structure Sim (I P : Nat) (old : List (Nat × Nat)) (sc ss : St) : Prop where
+  inPos : sc.inPos = I + ss.inPos
+  outPos : sc.outPos = P + ss.outPos
+  cmap : sc.cmap = shiftMap I P ss.cmap ++ old
+  cap : sc.cap = ss.cap
+  outs : sc.outs.map Out.bytes = ss.outs.map Out.bytes
+  hdr : sc.hdr = ss.hdr
+
+theorem lookup_shift (I P : Nat) (old : List (Nat × Nat)) (hold : ∀ kv ∈ old, kv.1 < I) (q : Nat) :
+    ∀ (m : List (Nat × Nat)), (shiftMap I P m ++ old).lookup (I + q) = (m.lookup q).map (P + ·) := by
+  intro m
+  induction m with
+  | nil =>
+    simp only [shiftMap, List.map_nil, List.nil_append, List.lookup_nil, Option.map_none]
+    induction old with
+    | nil => rfl
+    | cons kv old ih =>
+      have h1 : kv.1 < I := hold kv (by simp)
+      have hne : (I + q == kv.1) = false := by
+        simp only [beq_eq_false_iff_ne, ne_eq]; omega
+      obtain ⟨k, v⟩ := kv
+      simp only [List.lookup_cons, hne] at *
+      exact ih (fun kv h => hold kv (by simp [h]))
+  | cons kv m ih =>
+    obtain ⟨k, v⟩ := kv
+    simp only [shiftMap, List.map_cons, List.cons_append, List.lookup_cons] at *
+    by_cases h : q = k
+    · subst h; simp
+    · have h1 : (I + q == I + k) = false := by simp only [beq_eq_false_iff_ne, ne_eq]; omega
+      have h2 : (q == k) = false := by simp only [beq_eq_false_iff_ne, ne_eq]; exact h
+      rw [h1, h2]; exact ih
+
+theorem step_sim (o : Obj) (base I P : Nat) (old : List (Nat × Nat)) (hold : ∀ kv ∈ old, kv.1 < I)
+    (sc ss : St) (e : Entry) (h : Sim I P old sc ss) :
+    match step o base sc (e.shift I), step o (base + P) ss e with
+    | none, none => True
+    | some sc', some ss' => Sim I P old sc' ss'
+    | _, _ => False := by
+  obtain ⟨h1, h2, h3, h4, h5, h6⟩ := h
+  cases e with
+  | cie size tag =>
+    simp only [Entry.shift, step]
+    refine ⟨by simp only [h1]; omega, by simp only [h2]; omega, ?_, h4, ?_, h6⟩
+    · simp only [h3, h1, h2, shiftMap, List.map_cons, List.cons_append]
+    · simp only [List.map_append, h5, List.map_cons, List.map_nil, Out.bytes, h2, Nat.add_assoc]
+  | fde f =>
+    simp only [Entry.shift, step]
+    have hsa : sectionAddr o { f with ciePos := I + f.ciePos } = sectionAddr o f := by
+      simp [sectionAddr]
+    rw [hsa]
+    cases sectionAddr o f with
+    | none =>
+      simp only
+      exact ⟨by simp only [h1]; omega, h2, h3, h4, h5, h6⟩
+    | some sa =>
+      simp only
+      rw [h3, lookup_shift I P old hold f.ciePos ss.cmap]
+      cases ss.cmap.lookup f.ciePos with
+      | none => simp
+      | some c =>
+        simp only [Option.map_some]
+        have e1 : base + sc.outPos = base + P + ss.outPos := by rw [h2]; omega
+        have e2 : base + P + ss.outPos + 4 - (sc.outPos + 4 - (P + c)) = base + P + ss.outPos + 4 - (ss.outPos + 4 - c) := by
+          rw [h2]; omega
+        refine ⟨by simp only [h1]; omega, by simp only [h2]; omega, by simp, by simp only [h4], ?_, ?_⟩
+        · simp only [List.map_append, h5, List.map_cons, List.map_nil, Out.bytes, e1, e2]
+        · simp only [h4, h6, e1]
+
+theorem go_sim (o : Obj) (base I P : Nat) (old : List (Nat × Nat)) (hold : ∀ kv ∈ old, kv.1 < I) :
+    ∀ (es : List Entry) (sc ss : St), Sim I P old sc ss →
+    match go o base (es.map (Entry.shift I)) sc, go o (base + P) es ss with
+    | none, none => True
+    | some sc', some ss' => Sim I P old sc' ss'
+    | _, _ => False := by
+  intro es
+  induction es with
+  | nil => intro sc ss h; simpa [go] using h
+  | cons e es ih =>
+    intro sc ss h
+    have hs := step_sim o base I P old hold sc ss e h
+    simp only [List.map_cons, go]
+    cases h1 : step o base sc (e.shift I) with
+    | none =>
+      cases h2 : step o (base + P) ss e with
+      | none => simp
+      | some b => rw [h1, h2] at hs; exact hs.elim
+    | some a =>
+      cases h2 : step o (base + P) ss e with
+      | none => rw [h1, h2] at hs; exact hs.elim
+      | some b =>
+        rw [h1, h2] at hs
+        exact ih a b hs
+
+theorem go_append (o : Obj) (base : Nat) : ∀ (a b : List Entry) (st : St),
+    go o base (a ++ b) st = (go o base a st).bind (go o base b) := by
+  intro a
+  induction a with
+  | nil => intro b st; simp [go]
+  | cons e a ih =>
+    intro b st
+    simp only [List.cons_append, go]
+    cases step o base st e with
+    | none => simp
+    | some st1 => simpa using ih b st1
+
+theorem shift_size (I : Nat) (e : Entry) : (e.shift I).size = e.size := by
+  cases e <;> rfl
+
+theorem sizeSum_shift (I : Nat) (es : List Entry) : sizeSum (es.map (Entry.shift I)) = sizeSum es := by
+  simp [sizeSum, List.map_map, Function.comp_def, shift_size]
+
+/-- CIE keys stay below the input position (entries have positive size), and the input position
+advances by the sizes. -/
+theorem go_keys (o : Obj) (base : Nat) : ∀ (es : List Entry) (st st' : St),
+    (∀ e ∈ es, 0 < e.size) → (∀ kv ∈ st.cmap, kv.1 < st.inPos) → go o base es st = some st' →
+    (∀ kv ∈ st'.cmap, kv.1 < st'.inPos) ∧ st'.inPos = st.inPos + sizeSum es := by
+  intro es
+  induction es with
+  | nil => intro st st' _ hk hg; simp [go] at hg; subst hg; exact ⟨hk, by simp [sizeSum]⟩
+  | cons e es ih =>
+    intro st st' hpos hk hg
+    simp only [go] at hg
+    cases hs : step o base st e with
+    | none => rw [hs] at hg; cases hg
+    | some st1 =>
+      rw [hs] at hg
+      have hpe : 0 < e.size := hpos e (by simp)
+      have hk1 : (∀ kv ∈ st1.cmap, kv.1 < st1.inPos) ∧ st1.inPos = st.inPos + e.size := by
+        rcases step_cases o base st st1 e hs with ⟨sz, tag, he, h1⟩ | ⟨f, he, _, h1⟩ | ⟨f, sa, c, he, _, _, h1⟩
+        · subst he; subst h1
+          simp only [Entry.size] at hpe
+          refine ⟨?_, by simp [stCie, Entry.size]⟩
+          intro kv hkv
+          simp only [stCie, List.mem_cons] at hkv ⊢
+          rcases hkv with h | h
+          · subst h; simp only; omega
+          · have := hk kv h; omega
+        · subst he; subst h1
+          refine ⟨?_, by simp [stSkip, Entry.size]⟩
+          intro kv hkv
+          have := hk kv (by simpa [stSkip] using hkv)
+          simp only [stSkip]; omega
+        · subst he; subst h1
+          refine ⟨?_, by simp [stFde, Entry.size]⟩
+          intro kv hkv
+          have := hk kv (by simpa [stFde] using hkv)
+          simp only [stFde]; omega
+      obtain ⟨r1, r2⟩ := ih st1 st' (fun e h => hpos e (by simp [h])) hk1.1 hg
+      refine ⟨r1, ?_⟩
+      rw [r2, hk1.2]; simp [sizeSum]; omega
+
+/-- **Several `.eh_frame` input sections per object.** The writer as the code has it (one pass per
+section, fresh `input_pos` and CIE map, `eh_frame_start_address` advanced) produces the same output
+bytes, table entries, output size and remaining allocation as ONE pass over the concatenated entry
+list with section-relative CIE references moved by the section's start offset — which is what the
+tie sends to the model. Hypothesis: entries have positive size. -/
+theorem goSections_eq_concat (o : Obj) (base : Nat) : ∀ (secs : List (List Entry)) (sc ss : St),
+    (∀ es ∈ secs, ∀ e ∈ es, 0 < e.size) → (∀ kv ∈ sc.cmap, kv.1 < sc.inPos) →
+    sc.outPos = ss.outPos → sc.cap = ss.cap → sc.outs.map Out.bytes = ss.outs.map Out.bytes → sc.hdr = ss.hdr →
+    (goSections o base secs ss).map St.view = (go o base (concatSections secs sc.inPos) sc).map St.view := by
+  intro secs
+  induction secs with
+  | nil =>
+    intro sc ss _ _ h1 h2 h3 h4
+    simp [goSections, concatSections, go, St.view, h1, h2, h3, h4]
+  | cons es rest ih =>
+    intro sc ss hpos hk h1 h2 h3 h4
+    simp only [goSections, concatSections, go_append]
+    have hsim : Sim sc.inPos sc.outPos sc.cmap sc { ss with inPos := 0, outPos := 0, cmap := [] } :=
+      ⟨by simp, by simp, by simp [shiftMap], by simpa using h2, by simpa using h3, by simpa using h4⟩
+    have hg := go_sim o base sc.inPos sc.outPos sc.cmap hk es sc _ hsim
+    rw [← h1]
+    cases hc : go o base (es.map (Entry.shift sc.inPos)) sc with
+    | none =>
+      cases hp : go o (base + sc.outPos) es { ss with inPos := 0, outPos := 0, cmap := [] } with
+      | none => simp
+      | some b => rw [hc, hp] at hg; exact hg.elim
+    | some sc' =>
+      cases hp : go o (base + sc.outPos) es { ss with inPos := 0, outPos := 0, cmap := [] } with
+      | none => rw [hc, hp] at hg; exact hg.elim
+      | some ss' =>
+        rw [hc, hp] at hg
+        obtain ⟨g1, g2, g3, g4, g5, g6⟩ := hg
+        have hkeys := go_keys o base (es.map (Entry.shift sc.inPos)) sc sc'
+          (by intro e he; simp only [List.mem_map] at he; obtain ⟨e0, h0, rfl⟩ := he; rw [shift_size]; exact hpos es (by simp) e0 h0)
+          hk hc
+        rw [sizeSum_shift] at hkeys
+        simp only [Option.bind_some]
+        rw [← hkeys.2]
+        exact ih sc' { ss' with outPos := sc.outPos + ss'.outPos } (fun es' h => hpos es' (by simp [h])) hkeys.1
+          (by simpa using g2) (by simpa using g4) (by simpa using g5) (by simpa using g6)
+
+example : goSections exObj 0x500000 [exObj.entries, exObj.entries] { inPos := 0, outPos := 0, cmap := [], cap := 4, outs := [], hdr := [] } ≠ none := by
+  decide
+
+
+/-- the per-section writer on a whole object -/
+def writeObjSections (o : Obj) (secs : List (List Entry)) (base : Nat) : Option St :=
+  goSections o base secs { inPos := 0, outPos := 0, cmap := [], cap := layoutCount o, outs := [], hdr := [] }
+
+/-- `writeObj` on the concatenated entry list (what the model is asked) = the per-section writer. -/
+theorem writeObjSections_eq (o : Obj) (secs : List (List Entry)) (base : Nat)
+    (hent : o.entries = concatSections secs 0) (hpos : ∀ es ∈ secs, ∀ e ∈ es, 0 < e.size) :
+    (writeObjSections o secs base).map St.view = (writeObj o base).map St.view := by
+  unfold writeObjSections writeObj
+  rw [hent]
+  exact goSections_eq_concat o base secs _ _ hpos (by simp) rfl rfl rfl rfl
 
 end Wild.EhFrame
